@@ -75,7 +75,15 @@ theorem applySSubst_sem (𝔐 : Model) (σ : MVKey → Sem 𝔐.M) (hE : Admissi
         rw [ih p' hp, setS_comm _ _ _ hy]
         rw [sFresh_sound 𝔐 σ hS Y plug hfr _ _ (agreeOffS_setS ρ Y _)]
       simp only [this]
-  | mv id ef sf pos neg holes => intro r h ρ; simp [applySSubst] at h; subst h; simp [eval]
+  | mv id ef sf pos neg holes =>
+    intro r h ρ; simp only [applySSubst] at h
+    split at h
+    · rename_i hf
+      simp at h; subst h
+      simp only [eval]
+      have hmem : X ∈ sf := by simpa using hf
+      exact (hS.sf ⟨id, ef, sf, pos, neg, holes⟩ X hmem _ _ (agreeOffS_setS ρ X _)).symm
+    · simp at h; subst h; simp [eval]
   | esub p x q _ _ => intro r h ρ; simp [applySSubst] at h; subst h; simp [eval]
   | ssub p Y q _ _ => intro r h ρ; simp [applySSubst] at h; subst h; simp [eval]
 
@@ -159,7 +167,15 @@ theorem applyESubst_sem (𝔐 : Model) (σ : MVKey → Sem 𝔐.M) (hE : Admissi
       rw [ih p' hp, setS_setE_comm]
       rw [sFresh_sound 𝔐 σ hS Y plug hfr _ _ (agreeOffS_setS ρ Y _)]
     simp only [this]
-  | mv id ef sf pos neg holes => intro r h ρ; simp [applyESubst] at h; subst h; simp [eval]
+  | mv id ef sf pos neg holes =>
+    intro r h ρ; simp only [applyESubst] at h
+    split at h
+    · rename_i hf
+      simp at h; subst h
+      simp only [eval]
+      have hmem : x ∈ ef := by simpa using hf
+      exact (hE.ef ⟨id, ef, sf, pos, neg, holes⟩ x hmem _ _ (agreeOffE_setE ρ x _)).symm
+    · simp at h; subst h; simp [eval]
   | esub p y q _ _ => intro r h ρ; simp [applyESubst] at h; subst h; simp [eval]
   | ssub p Y q _ _ => intro r h ρ; simp [applyESubst] at h; subst h; simp [eval]
 
